@@ -31,7 +31,10 @@ Inductive sop :=
 | SIntMod | SIntQuo | SIntRem | SIntPlusMod | SIntMinusMod | SIntTimesMod | SIntTimesModInv
 | SIntShiftUp | SIntShiftDn | SIntBit | SIntNot | SIntAnd | SIntOr | SIntXOr
 | ByteToSInt | SIntToByte | HIntToSInt | SIntToHInt
-| RoundZero | RoundNearest | RoundUp | RoundDown | RoundDontCare.
+| RoundZero | RoundNearest | RoundUp | RoundDown | RoundDontCare
+(* components of multi-result builtins: result k of X is the row "X#k" *)
+| SIntDivide0 | SIntDivide1
+| WordPlusStep0 | WordPlusStep1 | WordTimesDouble0 | WordTimesDouble1 | WordTimesStep0 | WordTimesStep1.
 
 Local Open Scope string_scope.
 Definition sop_table : list (string * sop) := [
@@ -58,7 +61,11 @@ Definition sop_table : list (string * sop) := [
   ("ByteToSInt", ByteToSInt); ("SIntToByte", SIntToByte);
   ("HIntToSInt", HIntToSInt); ("SIntToHInt", SIntToHInt);
   ("RoundZero", RoundZero); ("RoundNearest", RoundNearest); ("RoundUp", RoundUp);
-  ("RoundDown", RoundDown); ("RoundDontCare", RoundDontCare)
+  ("RoundDown", RoundDown); ("RoundDontCare", RoundDontCare);
+  ("SIntDivide#0", SIntDivide0); ("SIntDivide#1", SIntDivide1);
+  ("WordPlusStep#0", WordPlusStep0); ("WordPlusStep#1", WordPlusStep1);
+  ("WordTimesDouble#0", WordTimesDouble0); ("WordTimesDouble#1", WordTimesDouble1);
+  ("WordTimesStep#0", WordTimesStep0); ("WordTimesStep#1", WordTimesStep1)
 ].
 
 Fixpoint assoc {A} (n : string) (l : list (string * A)) : option A :=
@@ -98,6 +105,10 @@ Definition sop_sig (o : sop) : list fty * fty :=
   | HIntToSInt => ([FHInt], FSInt)
   | SIntToHInt => ([FSInt], FHInt)
   | RoundZero | RoundNearest | RoundUp | RoundDown | RoundDontCare => ([], FSInt)
+  | SIntDivide0 | SIntDivide1 => ([FSInt; FSInt], FSInt)
+  | WordPlusStep0 | WordPlusStep1 => ([FWord; FWord; FWord], FWord)
+  | WordTimesDouble0 | WordTimesDouble1 => ([FWord; FWord], FWord)
+  | WordTimesStep0 | WordTimesStep1 => ([FWord; FWord; FWord; FWord], FWord)
   end.
 
 Definition smin : Z := -9223372036854775808.
@@ -110,6 +121,7 @@ Definition in_ty (t : fty) (z : Z) : Prop :=
   | FChar | FByte => 0 <= z < 256
   | FHInt => -32768 <= z < 32768
   | FSInt => -9223372036854775808 <= z < 9223372036854775808
+  | FWord => 0 <= z < 18446744073709551616
   | FDFlo => True     (* a float operand is an opaque datum here: no specified result may depend on it *)
   | _ => False
   end.
@@ -120,6 +132,7 @@ Definition in_ty_b (t : fty) (z : Z) : bool :=
   | FChar | FByte => (0 <=? z) && (z <? 256)
   | FHInt => (-32768 <=? z) && (z <? 32768)
   | FSInt => (-9223372036854775808 <=? z) && (z <? 9223372036854775808)
+  | FWord => (0 <=? z) && (z <? 18446744073709551616)
   | FDFlo => true
   | _ => false
   end.
@@ -129,6 +142,8 @@ Definition typed (tys : list fty) (args : list Z) : Prop := Forall2 in_ty tys ar
 Definition a0 (l : list Z) := nth 0 l 0.
 Definition a1 (l : list Z) := nth 1 l 0.
 Definition a2 (l : list Z) := nth 2 l 0.
+Definition a3 (l : list Z) := nth 3 l 0.
+Definition wbase : Z := 18446744073709551616.      (* 2^64: one machine word *)
 
 Definition is_digit (c : Z) : bool := (48 <=? c) && (c <=? 57).
 Definition is_upper (c : Z) : bool := (65 <=? c) && (c <=? 90).
@@ -183,6 +198,16 @@ Definition spec (o : sop) (l : list Z) : Z :=
   | HIntToSInt => a
   | SIntToHInt => wrap S16 a
   | RoundZero => 0 | RoundNearest => 1 | RoundUp => 2 | RoundDown => 3 | RoundDontCare => 4
+  | SIntDivide0 => Z.quot a b
+  | SIntDivide1 => Z.rem a b
+  (* double-word arithmetic on unsigned words: (high word, low word) of the exact result;
+     PlusStep a b kin = a + b + kin, TimesStep a b c kin = a * b + c + kin, first result the carry / high word *)
+  | WordPlusStep0 => (a + b + c) / wbase
+  | WordPlusStep1 => (a + b + c) mod wbase
+  | WordTimesDouble0 => (a * b) / wbase
+  | WordTimesDouble1 => (a * b) mod wbase
+  | WordTimesStep0 => (a * b + c + a3 l) / wbase
+  | WordTimesStep1 => (a * b + c + a3 l) mod wbase
   end.
 
 Definition div_ok (x y : Z) : bool := negb (y =? 0) && negb ((x =? smin) && (y =? -1)).
@@ -190,7 +215,7 @@ Definition div_ok (x y : Z) : bool := negb (y =? 0) && negb ((x =? smin) && (y =
 Definition in_dom (o : sop) (l : list Z) : bool :=
   let a := a0 l in let b := a1 l in let c := a2 l in
   match o with
-  | SIntMod | SIntQuo | SIntRem => div_ok a b
+  | SIntMod | SIntQuo | SIntRem | SIntDivide0 | SIntDivide1 => div_ok a b
   | SIntPlusMod => div_ok (red (a + b)) c
   | SIntMinusMod => div_ok (red (a - b)) c
   | SIntTimesMod | SIntTimesModInv => div_ok (red (a * b)) c
@@ -248,35 +273,28 @@ Definition sameop_names : list string := [
   "TypeInt8"; "TypeInt16"; "TypeInt32"; "TypeInt64"; "TypeInt128"; "TypeNil"; "TypeChar"; "TypeBool";
   "TypeByte"; "TypeHInt"; "TypeSInt"; "TypeBInt"; "TypeSFlo"; "TypeDFlo"; "TypeWord"; "TypeClos";
   "TypePtr"; "TypeRec"; "TypeArr"; "TypeTR";
-  "SizeOfInt8"; "SizeOfInt16"; "SizeOfInt32"; "SizeOfInt64"; "SizeOfInt128"
+  "SizeOfInt8"; "SizeOfInt16"; "SizeOfInt32"; "SizeOfInt64"; "SizeOfInt128";
+  "SizeOfNil"; "SizeOfChar"; "SizeOfBool"; "SizeOfByte"; "SizeOfHInt"; "SizeOfSInt"; "SizeOfBInt"; "SizeOfSFlo";
+  "SizeOfDFlo"; "SizeOfWord"; "SizeOfClos"; "SizeOfPtr"; "SizeOfRec"; "SizeOfArr"; "SizeOfTR";
+  (* multi-result builtins whose runtime function is not straight-line: the same call with the same inputs,
+     outputs taken in the same order (components "X#k" where the function could be inlined) *)
+  "WordDivideDouble"; "BIntDivide"; "ScanSFlo"; "ScanDFlo"; "ScanSInt"; "ScanBInt";
+  "SFloDissemble"; "DFloDissemble"; "SFloAssemble"; "DFloAssemble";
+  (* float constants and sign tests, null pointer, run-time-system tag: the same constant / predicate up to the
+     spelling of 0 and 1 and `x ? F : T` for `x == 0` (normal form `fnorm` in Facts.v) *)
+  "SFlo0"; "SFlo1"; "DFlo0"; "DFlo1"; "SFloIsZero"; "SFloIsNeg"; "SFloIsPos"; "DFloIsZero"; "DFloIsNeg"; "DFloIsPos";
+  "PtrNil"; "PlatformRTE";
+  (* store queries and list construction: the same runtime call *)
+  "StoInHeap"; "StoIsWritable"; "StoMarkObject"; "StoRecode"; "ListCons"
 ].
 
 Definition excluded : list (string * string) := [
-  ("SFlo0", "float constant: written 0.0 / (FiSFlo) 0, same value, not syntactically the same; 3-way run only");
-  ("SFlo1", "float constant, as SFlo0"); ("DFlo0", "float constant, as SFlo0"); ("DFlo1", "float constant, as SFlo0");
-  ("SFloIsZero", "interpreter tests `x ? F : T`, folder and C `x == 0.0`: same predicate on IEEE values, different syntax; 3-way run only");
-  ("SFloIsNeg", "compares with integer 0 in the interpreter and 0.0 elsewhere; 3-way run only");
-  ("SFloIsPos", "as SFloIsNeg"); ("DFloIsZero", "as SFloIsZero"); ("DFloIsNeg", "as SFloIsNeg"); ("DFloIsPos", "as SFloIsNeg");
-  ("SFloDissemble", "several results through pointers"); ("SFloAssemble", "bit-level float construction (C19)");
-  ("DFloDissemble", "several results through pointers"); ("DFloAssemble", "bit-level float construction (C19)");
-  ("SIntDivide", "two results through pointers (quotient and remainder are covered by SIntQuo/SIntRem)");
-  ("WordTimesDouble", "several results through pointers"); ("WordDivideDouble", "several results through pointers");
-  ("WordPlusStep", "several results through pointers"); ("WordTimesStep", "several results through pointers");
   ("BIntIsEven", "two C renderings (fiBIntMod-based and fiBIntBit-based); big integers are C11's"); ("BIntIsOdd", "as BIntIsEven");
-  ("BIntDivide", "two results through pointers");
   ("BIntShiftRem", "interpreter narrows the count to int first; otherwise the same bintShiftRem call");
-  ("PtrNil", "null pointer written 0 / (FiPtr) 0 / foamNewNil()");
-  ("BIntShiftUp", "interpreter narrows the count to int first; otherwise the same bintShift call"); ("BIntShiftDn", "as BIntShiftUp");
-  ("ScanSFlo", "two results through pointers"); ("ScanDFlo", "two results through pointers");
-  ("ScanSInt", "two results through pointers"); ("ScanBInt", "two results through pointers");
-  ("PlatformRTE", "constant naming the run-time system: differs by design"); ("Halt", "does not return");
-  ("StoForceGC", "store manager (C09/C10)"); ("StoInHeap", "store manager"); ("StoIsWritable", "store manager");
-  ("StoMarkObject", "store manager"); ("StoRecode", "store manager"); ("StoNewObject", "store manager");
-  ("StoATracer", "store manager"); ("StoCTracer", "store manager"); ("StoShow", "store manager"); ("StoShowArgs", "store manager"); ("RawRepSize", "raw-record layout"); ("SizeOfNil", "sizeof"); ("SizeOfChar", "sizeof"); ("SizeOfBool", "sizeof"); ("SizeOfByte", "sizeof");
-  ("SizeOfHInt", "sizeof"); ("SizeOfSInt", "sizeof"); ("SizeOfBInt", "sizeof"); ("SizeOfSFlo", "sizeof"); ("SizeOfDFlo", "sizeof");
-  ("SizeOfWord", "sizeof"); ("SizeOfClos", "sizeof"); ("SizeOfPtr", "sizeof"); ("SizeOfRec", "sizeof"); ("SizeOfArr", "sizeof");
-  ("SizeOfTR", "sizeof");
-  ("ListNil", "heap lists"); ("ListEmptyP", "heap lists"); ("ListHead", "heap lists"); ("ListTail", "heap lists"); ("ListCons", "heap lists");
-  ("NewExportTable", "run-time tables"); ("AddToExportTable", "run-time tables"); ("FreeExportTable", "run-time tables");
+  ("BIntShiftUp", "interpreter narrows the count to int first; otherwise the same bintShift call"); ("BIntShiftDn", "as BIntShiftUp"); ("Halt", "does not return");
+  ("StoForceGC", "no result: called for its effect on the store (a statement in the interpreter); store manager, C09/C10"); ("StoNewObject", "no result: effect on the store only");
+  ("StoATracer", "no result: registers a tracer closure"); ("StoCTracer", "no result: registers a tracer; the interpreter routes it to fiStoATracer"); ("StoShow", "no result: prints store statistics"); ("StoShowArgs", "interpreter inlines stoShowArgs with an int narrowing, the C runtime calls fiStoShowArgs: not the same expression"); ("RawRepSize", "no case in the interpreter; the folder rewrites it to a SizeOf* call when its operand is a Type* call (a FOAM rewrite, not a value)");
+  ("ListNil", "interpreter calls fiListNil(), generated C writes (FiPtr)0: heap-list representation"); ("ListEmptyP", "interpreter calls fiListEmptyP(), generated C converts the pointer itself: not the same expression"); ("ListHead", "generated C reads ((FiList*)l)->data in a macro (struct access, outside the expression subset)"); ("ListTail", "generated C reads ((FiList*)l)->next in a macro (struct access, outside the expression subset)");
+  ("NewExportTable", "no case in the interpreter; run-time export tables"); ("AddToExportTable", "no case in the interpreter; run-time export tables"); ("FreeExportTable", "no case in the interpreter; run-time export tables");
   ("ssaPhi", "internal to the optimiser, never evaluated")
 ].
